@@ -4,6 +4,7 @@ import itertools, json, os
 from vp import val, coqrun, rustrun
 from vp.val import cN, cbool, clist, cpair
 from gen.common import *
+from gen import bgpenc as E
 
 IPV4_LU = (1 << 16) | 4
 FAMS = [IPV4, IPV6, IPV4_VPN, IPV4_LU]
@@ -132,6 +133,7 @@ class Prop:
     def case_to_val(self, c):
         k = c['kind']
         if k == 'acc': return acc_to_val(c)
+        if k == 'open': return [c['lid'], caps_to_val(c['l']), c['lhold'], c['exp'], list(c['frame']), list(c['fams'])]
         if k == 'net': return [0, net_to_val(c['net']), addr_to_val(c['addr'])]
         if k == 'neg': return [1, caps_to_val(c['l']), caps_to_val(c['r']), list(c['fams'])]
         return [caps_to_val(c['l']), caps_to_val(c['r']), [list(p) for p in c['smax']], list(c['fams'])]
@@ -139,6 +141,9 @@ class Prop:
     def case_to_coq(self, c, order=None):
         k = c['kind']
         if k == 'acc': return acc_to_coq(c, order if order is not None else list(range(len(c['groups']))))
+        if k == 'open':
+            return 'run_open_case %s %s %s %s %s %s' % (cN(c['lid']), caps_to_coq(c['l']), cN(c['lhold']), cN(c['exp']),
+                                                       val.cbytes(c['frame']), clist([cN(f) for f in c['fams']]))
         if k == 'net': return 'v_net_case %s %s' % (net_to_coq(c['net']), addr_to_coq(c['addr']))
         fams = clist([cN(f) for f in c['fams']])
         if k == 'neg': return 'run_neg_case %s %s %s' % (caps_to_coq(c['l']), caps_to_coq(c['r']), fams)
@@ -152,6 +157,9 @@ class Prop:
         c = dict(j)
         if c['kind'] == 'acc':
             return json.loads(json.dumps(j))
+        if c['kind'] == 'open':
+            c['l'] = [tupcap(x) for x in j['l']]
+            return c
         if c['kind'] == 'net':
             c['net'] = (j['net'][0], list(j['net'][1]), j['net'][2]); c['addr'] = (j['addr'][0], list(j['addr'][1]))
         else:
@@ -414,8 +422,82 @@ class Prop:
         case('restarting', g, [dict(addr=a2, params=P(gr=[120, True, [IPV4]]), group=None)], [('connect', a1, 1), ('connect', a2, 1)], restarting=True)
         return out
 
+    def enum_open(self):
+        """OPEN messages as octets: capability order and packaging, lengths off by one, unknown codes, AS forms
+        (2-octet, AS_TRANS + 4-octet capability), hold times 0/1/2/3/65535, identifiers, against expected AS and local hold"""
+        out = []
+        F = IPV4
+        LID = 0x01000001
+        lcap = [('mp', F), ('mp', IPV6), ('addpath', [(F, 3)]), ('as4', 65000), ('extmsg',), ('gr', 4, 120, [(F, 0)]), ('llgr', [(F, 0, 60)])]
+        def add(cls, frame, exp=0, lhold=90, l=lcap):
+            fr = frame.d if hasattr(frame, 'd') else list(frame)
+            out.append(dict(kind='open', lid=LID, l=list(l), lhold=lhold, exp=exp, frame=fr, fams=sorted(FAMS), cls=cls))
+        caps = {'mp': E.cap_mp(F), 'mp6': E.cap_mp(IPV6), 'addpath': E.cap_addpath([(F, 3)]), 'as4': E.cap_as4(65001), 'extmsg': E.cap_extmsg(),
+                'gr': E.cap_gr(4, 90, [(F, 128)]), 'llgr': E.cap_llgr([(F, 0, 30)]), 'rr': E.cap_rr(), 'err': E.cap_err(),
+                'enh': E.cap_extnh([(F, 2)]), 'fqdn': E.cap_fqdn([104, 111], [100])}
+        def msg(cl, asn=65001, hold=30, rid=100, one_param=True):
+            params = [E.opt_param(2, E.cat(cl))] if one_param else [E.opt_param(2, c) for c in cl]
+            return E.open_msg(asn, hold, rid, params if cl else [])
+        # order and packaging of the capabilities (ADD-PATH before MultiProtocol, one optional parameter or one each)
+        four = ['mp', 'addpath', 'as4', 'extmsg']
+        for perm in itertools.permutations(four):
+            for one in (True, False):
+                add('wire_order', msg([caps[x] for x in perm], one_param=one))
+        # each capability: absent, once, twice; and with its length octet off by one either way, zero, or beyond the parameter
+        for name, cb in caps.items():
+            rest = [caps[x] for x in four if x != name]
+            add('wire_cap_%s_absent' % name, msg(rest))
+            add('wire_cap_%s_once' % name, msg(rest + [cb]))
+            add('wire_cap_%s_twice' % name, msg([cb] + rest + [cb]))
+            for delta in (-1, 1, None, 200):
+                bad = list(cb.d)
+                bad[1] = 0 if delta is None else (bad[1] + delta) & 0xff
+                add('wire_cap_%s_badlen' % name, msg(rest + [E.B(bad)]))
+                add('wire_cap_%s_badlen' % name, msg([E.B(bad)] + rest))
+        # capability codes the implementation does not know, with lengths 0 / 1 / 255
+        for code in (0, 3, 4, 7, 63, 66, 67, 68, 72, 74, 128, 255):
+            for ln in (0, 1, 255):
+                add('wire_unknown_cap', msg([caps['mp'], E.B([code, ln] + [1] * min(ln, 3)), caps['as4']]))
+                add('wire_unknown_cap', msg([caps['mp'], E.cap(code, [7] * min(ln, 40)), caps['as4']]))
+        # add-path modes on the wire 0..4, 255; entries for families without MultiProtocol; several entries
+        for m in (0, 1, 2, 3, 4, 255):
+            add('wire_addpath_mode', msg([caps['mp'], E.cap_addpath([(F, m)]), caps['as4']]))
+            add('wire_addpath_mode', msg([E.cap_addpath([(F, m), (F, 3)]), caps['mp']]))
+            add('wire_addpath_mode', msg([E.cap_addpath([(F, 3), (F, m)]), caps['mp']]))
+            add('wire_addpath_mode', msg([E.cap_addpath([(IPV6, m)]), caps['mp']]))
+        # optional parameter types other than 2, lengths against the message
+        for ty in (0, 1, 3, 255):
+            add('wire_param_type', E.open_msg(65001, 30, 100, [E.opt_param(ty, [1, 2, 3])]))
+        add('wire_param_len', E.open_msg(65001, 30, 100, [E.B([2, 10, 1, 4, 0, 1, 0, 1])]))
+        add('wire_param_len', E.open_msg(65001, 30, 100, [E.B([2])]))
+        # AS number forms against the expected AS: 2-octet, AS_TRANS with and without the capability, 4-octet, mismatch
+        for asn, as4 in ((65001, None), (65001, 65001), (23456, 65001), (23456, 70000), (23456, None), (65001, 70000), (23456, 23456), (0, None), (65535, 65535)):
+            for exp in (0, 65001, 70000, 23456):
+                cl = [caps['mp']] + ([E.cap_as4(as4)] if as4 is not None else [])
+                add('wire_as_forms', msg(cl, asn=asn), exp=exp)
+        # hold times on either side
+        for hold in (0, 1, 2, 3, 4, 65535):
+            for lhold in (0, 1, 2, 3, 90, 65535, 65536):
+                add('wire_hold', msg([caps['mp']], hold=hold), lhold=lhold)
+        # identifiers: unspecified, broadcast, multicast, the local identifier, ordinary
+        for rid in (0, 0xffffffff, 0xe0000001, 0xefffffff, 0xdfffffff, 0xf0000000, LID, 1, 100):
+            add('wire_router_id', msg([caps['mp']], rid=rid))
+        # version, truncation
+        add('wire_version', E.open_msg(65001, 30, 100, [], version=3))
+        full = msg([caps['mp'], caps['as4']]).d
+        for cut in (1, 2, 10):
+            fr = list(full[:-cut]); fr[16:18] = [len(fr) >> 8, len(fr) & 0xff]
+            add('wire_truncated', fr)
+        # GR flag and time bits, LLGR time width
+        for fl in (0, 4, 8, 12, 15):
+            for tm in (0, 1, 4095):
+                add('wire_gr_bits', msg([caps['mp'], E.cap_gr(fl, tm, [(F, 128), (IPV6, 0)])]))
+        for tm in (0, 1, 0xffffff):
+            add('wire_llgr_time', msg([caps['mp'], E.cap_llgr([(F, 128, tm)])]))
+        return out
+
     def gen_cases(self, rng, tier):
-        cases = self.enum_neg() + self.enum_acc()
+        cases = self.enum_neg() + self.enum_acc() + self.enum_open()
         for _ in range(300 if tier == 'quick' else 4000):
             c = json.loads(json.dumps(self.gen_acc(rng))); c['cls'] = 'random'; cases.append(c)
         reps = 2 if tier == 'quick' else 12
@@ -449,6 +531,11 @@ class Prop:
             res, err = rustrun.daemon_test('C16d', 'event::verif_hx::verif_neg_cases', [self.case_to_val(c) for _, c in b])
             if res is None: return None, err
             for (k, _), o in zip(b, res): out[k] = o
+        w = [(k, c) for k, c in enumerate(cases) if c['kind'] == 'open']
+        if w:
+            res, err = rustrun.daemon_test('C16o', 'event::verif_hx::open_hx::verif_open_cases', [self.case_to_val(c) for _, c in w])
+            if res is None: return None, err
+            for (k, _), o in zip(w, res): out[k] = o
         d = [(k, c) for k, c in enumerate(cases) if c['kind'] == 'acc']
         self._orders = {}
         if d:
@@ -463,7 +550,7 @@ class Prop:
         return out, ''
 
     def run_model(self, cases, tier):
-        pre = 'From RB Require Import Base.Val Model.Caps Model.Fsm Model.Negotiate Model.Accept.\nOpen Scope N_scope.'
+        pre = 'From RB Require Import Base.Val Model.Caps Model.Fsm Model.Negotiate Model.Accept Model.OpenSession.\nOpen Scope N_scope.'
         orders = getattr(self, '_orders', {})
         return coqrun.eval_terms('C16', pre, [self.case_to_coq(c, orders.get(k)) if c['kind'] == 'acc' else self.case_to_coq(c)
                                               for k, c in enumerate(cases)])
@@ -485,6 +572,8 @@ class Prop:
         k = c['kind']
         if k == 'acc':
             return self.oracle_acc(c, obs)
+        if k == 'open':
+            return self.oracle_open(c, obs)
         if obs == [-1] and k != 'net':
             return 'panic'
         if k == 'net':
@@ -735,7 +824,47 @@ class Prop:
             rows = after
         return None
 
+    def oracle_open(self, c, obs):
+        if obs == [-1]: return 'panic while handling an OPEN'
+        if obs[0] != 1:
+            return None          # rejected by the codec: the decoder's verdict is property C03's
+        _, asn, hold, rid, rcaps, state, outs, neg, grs = obs
+        # expected AS: the session goes on only with the configured AS (0 = any), else Bad Peer AS
+        ok_as = c['exp'] == 0 or c['exp'] == asn
+        downs = [o for o in outs if o[2][0] == 5]
+        if ok_as and (state != 4 or downs): return 'OPEN from the expected AS %d did not lead to OpenConfirm' % asn
+        if not ok_as and (state != 0 or not downs or downs[0][2][1] != [2, 2, 2]):
+            return 'OPEN from AS %d accepted although AS %d is configured' % (asn, c['exp'])
+        if ok_as:
+            lh = c['lhold'] % 65536
+            adv = 0 if lh in (1, 2) else lh
+            h = min(adv, hold)
+            kas = [o[2][1] for o in outs if o[2][0] == 1]; hs = [o[2][1] for o in outs if o[2][0] == 2]
+            if h > 0 and (kas != [h // 3] or hs != [h]):
+                return 'hold time %d in force, timers asked for: keepalive %s hold %s' % (h, kas, hs)
+            if h == 0 and (any(kas) or any(hs)):
+                return 'hold time 0 in force but a timer is started: keepalive %s hold %s' % (kas, hs)
+        # the two ends: mirror image, in force iff both advertised
+        fl, xl, tl, fr, xr, tr = neg
+        rc = [tuple(x) for x in rcaps]
+        def has(caps, code): return any(x[0] == code for x in caps)
+        lv = caps_to_val(c['l'])
+        for (f, p, rx, tx), (f2, p2, rx2, tx2) in zip(fl, fr):
+            if p != p2 or (p and (rx != tx2 or tx != rx2)): return 'family %d: not mirror images' % f
+            both = [1, f] in lv and [1, f] in rcaps
+            if bool(p) != both: return 'family %d in force %d, advertised by both %d' % (f, p, both)
+        if xl != xr or tl != tr: return 'extended message / AS width differ between the two ends'
+        if bool(xl) != (has(lv, 6) and has(rcaps, 6)): return 'extended message in force but not advertised by both'
+        if bool(tl) == (has(lv, 65) and has(rcaps, 65)): return '4-octet AS in force but not advertised by both'
+        gl, ll, gr_, lr = grs
+        if set(gl[0] if gl else []) != set(gr_[0] if gr_ else []): return 'graceful restart families differ between the two ends'
+        sl = set(f for f, _ in ll[0]) if ll else set(); sr = set(f for f, _ in lr[0]) if lr else set()
+        if sl != sr: return 'LLGR families differ between the two ends'
+        return None
+
     def nontrivial_key(self, c, obs):
+        if c['kind'] == 'open':
+            return json.dumps(c['frame']) if obs != [-1] and obs[0] == 1 else None
         if c['kind'] == 'acc':
             if obs != [-1] and any(o[0] for o in obs[2:]): return json.dumps(acc_to_val(c))
             return None
